@@ -164,6 +164,8 @@ class BuiltinMixin:
         if isinstance(v, VClass) and v.ci.is_enum():
             consts = self.ctx.sorts.enum_consts[v.ci.name]
             return VList([VEnum(v.ci.name, c) for c in consts.values()], ENUM(v.ci.name))
+        if isinstance(v, VPy):
+            return v
         if isinstance(v, VSet):
             raise OutOfReach('iteration over a set (order unspecified)')
         raise OutOfReach(f'iteration over {v.kind}')
@@ -935,4 +937,8 @@ class BuiltinMixin:
         if name == 'string.ascii_letters':
             import string
             return VStrConst(string.ascii_letters)
+        if any(isinstance(a, VPy) for a in args) or name.split('.')[0] in ('os', 'antlr4', 'uvl', 'afmparser', 'xml', 'json'):
+            ctx.opaque_attrs.clear()
+            ctx.assumptions.add(f'library call {name} modelled as an opaque function (unconstrained result, no effect on the model)')
+            return VPy(ctx.fresh('lib_' + name.split('.')[-1], ctx.sorts.PyVal))
         raise OutOfReach(f'library call {name} (line {ln})')
